@@ -16,6 +16,7 @@ func init() {
 		c11OkAfterProcessing(c)
 		answerOrPark(c, "C11.5", true)
 		c11ReleaseAtClose(c, "C11.6")
+		noBaseBypass(c, "C11.8")
 		c09ReadersTerminate(c) // C11.7 (= C09.6): a request whose client is gone is released by the context watcher (Flush)
 	})
 }
